@@ -394,8 +394,14 @@ def _s3_timeout_bound(ctx, rep, model_ok=False):
     import datashard.lock_provider as lpm
     from datashard.lock_provider import S3LockProvider
     POLL_MAX = 1.0          # one poll sleep (documented jitter 0.3–0.9 s)
-    for timeout in (1.0, 5.0, 30.0):
-        for seed in range(3 if not ctx.thorough else 12):
+    import time as _time
+    tz_saved = os.environ.get("TZ")
+    for timeout, seed, tz in [(t_, s_, None) for t_ in (1.0, 5.0, 30.0) for s_ in range(3 if not ctx.thorough else 12)] + \
+                             [(5.0, 0, "JST-9"), (5.0, 1, "EST5EDT"), (1.0, 2, "NPT-5:45")]:      # the contender's host is not on UTC
+        if True:
+            if tz is not None:
+                os.environ["TZ"] = tz
+                _time.tzset()
             vt = VTime()
             skew = (0.0, 3.0, -3.0)[seed % 3]       # the store's clock vs the clients' clock (LastModified may lie in a client's future)
             fake = fakes3.FakeS3(clock=lambda vt=vt, skew=skew: dt.datetime.fromtimestamp(vt.t + skew, dt.timezone.utc))
@@ -419,7 +425,7 @@ def _s3_timeout_bound(ctx, rep, model_ok=False):
             try:
                 holder.acquire()
                 t0 = vt.t
-                case = {"kind": "s3-timeout", "timeout": timeout, "jitter_seed": seed, "store_clock_skew_s": skew}
+                case = {"kind": "s3-timeout", "timeout": timeout, "jitter_seed": seed, "store_clock_skew_s": skew, "process_tz": tz or "UTC"}
                 rep.evaluations += 1
                 rep.nontrivial(["s3-timeout", timeout, seed])
                 try:
@@ -440,6 +446,12 @@ def _s3_timeout_bound(ctx, rep, model_ok=False):
                 lpm.time, dt.datetime = saved[0], saved[1]
                 if saved[2] is not None:
                     lpm.random = saved[2]
+                if tz is not None:
+                    if tz_saved is None:
+                        os.environ.pop("TZ", None)
+                    else:
+                        os.environ["TZ"] = tz_saved
+                    _time.tzset()
 
 
 def s3_dead_holder(ctx, rep, sig):
@@ -791,6 +803,59 @@ def _same_instance(ctx, rep, base):
         holder.release()
 
 
+def _wall_clock_steps(ctx, rep, base):
+    """a blocked acquirer while the WALL clock is stepped (NTP correction, manual change) backwards / forwards: the timeout is a duration,
+    it must be honoured whatever the wall clock does"""
+    import time as _time
+    import datashard.file_lock as flm
+    from datashard.file_lock import FileLock
+    for label, wall in (("stepping backwards", lambda t0, n: t0 - 10.0 * n), ("frozen", lambda t0, n: t0), ("jumping a day ahead once", lambda t0, n: t0 + (86400 if n > 3 else 0))):
+        path = os.path.join(base, "wall", label.replace(" ", "_"), "x.lock")
+        os.makedirs(os.path.dirname(path), exist_ok=True)
+        holder, waiter = FileLock(path, timeout=5.0), FileLock(path, timeout=0.5)
+        holder.acquire()
+        calls = {"n": 0}
+        t0 = _time.time()
+
+        def fake_time():
+            calls["n"] += 1
+            return wall(t0, calls["n"])
+        saved = flm.time
+        flm.time = types.SimpleNamespace(time=fake_time, monotonic=_time.monotonic, sleep=_time.sleep)
+        out = {}
+
+        def run():
+            m0 = _time.monotonic()
+            try:
+                waiter.acquire()
+                out["r"] = "acquired"
+            except TimeoutError:
+                out["r"] = "timeout"
+            except Exception as e:      # noqa: BLE001
+                out["r"] = type(e).__name__
+            out["el"] = _time.monotonic() - m0
+        th = threading.Thread(target=run, daemon=True)
+        th.start()
+        th.join(3.0)
+        hung = th.is_alive()
+        holder.release()
+        th.join(5.0)
+        flm.time = saved
+        if out.get("r") == "acquired":
+            try:
+                waiter.release()
+            except Exception:       # noqa: BLE001
+                pass
+        rep.evaluations += 1
+        rep.nontrivial(["wall-clock", label])
+        case = {"kind": "flock-timeout-under-wall-clock-changes", "wall_clock": label, "timeout_s": 0.5}
+        if hung or out.get("r") != "timeout" or out.get("el", 99) > 0.5 + 1.0:
+            rep.violate("C19:timeout-exceeded", f"FileLock(timeout=0.5) blocked by a live holder, wall clock {label}: "
+                        f"{'still waiting after 3 s' if hung else out}", case)
+        elif out["el"] < 0.5 - 0.05:
+            rep.violate("C19:timeout-before-deadline", f"FileLock(timeout=0.5), wall clock {label}: TimeoutError after {out['el']:.2f}s", case)
+
+
 def _try(lk):
     try:
         return lk.acquire()
@@ -818,6 +883,7 @@ def run(ctx, model_ok):
         _fork_inherits(ctx, rep, base)
         _fallback_lock(ctx, rep, base)
         _same_instance(ctx, rep, base)
+        _wall_clock_steps(ctx, rep, base)
         _s3_timeout_bound(ctx, rep, model_ok)
         s3_dead_holder(ctx, rep, "C19:s3-dead-holder-never-taken-over")
         _env_spellings(ctx, rep)
